@@ -65,6 +65,29 @@ func c05Scenarios(run *core.Run) []*protoScenario {
 			}
 		}
 	}
+	// block ranges that start in the middle of a batch and span several batches (blocks compacted to the front of the batch)
+	for ri, r := range recs[:3] {
+		for ji, j := range []int{2, 3, 4} {
+			for fi, fr := range [][2]int{{2, 0}, {3, 11}, {5, 0}, {2, 9}, {7, 12}} {
+				if !run.Thorough() && (ri+ji+fi)%2 == 1 {
+					continue
+				}
+				for _, mode := range []string{"pct", "free"} {
+					scs = append(scs, &protoScenario{Side: "dec", Tasks: j, Blocks: 12, BlockSz: r.bs, Shape: r.shape, Cfg: r.cfg, Checksum: []uint{0, 32}[(ri+fi)%2], From: fr[0], To: fr[1],
+						Mode: mode, Runs: run.Pick(3, 20), Seed: S*10 + int64(ri*17+ji*5+fi)})
+				}
+			}
+		}
+	}
+	// one / two blocks above the 4 MiB threshold of the parallel inverse BWT, size hint present: the reader hands several jobs
+	// to a single block (3, 5, 6, 7 jobs: uneven shares of the 8 chunks)
+	for ji, j := range []int{3, 5, 6, 7, 4} {
+		if !run.Thorough() && ji == 4 {
+			continue
+		}
+		scs = append(scs, &protoScenario{Side: "dec", Tasks: j, Blocks: 1, BlockSz: 8 << 20, Shape: "html", Cfg: [2]string{"BWT", "NONE"}, Checksum: []uint{0, 32}[ji%2], Hint: true, Mode: "free", Runs: 1, Seed: S + int64(ji)})
+	}
+	scs = append(scs, &protoScenario{Side: "dec", Tasks: 6, Blocks: 2, BlockSz: 6 << 20, Shape: "text", Cfg: [2]string{"BWT", "ANS0"}, Checksum: 32, Hint: true, Mode: "free", Runs: 1, Seed: S})
 	// failing block k: where are the neighbours when it fails?
 	for ri, r := range recs[:4] {
 		for _, j := range []int{2, 3, 4, 8} {
@@ -98,6 +121,7 @@ func c05(run *core.Run, replay string) {
 	run.SetRule("valid streams (6 codec pairs, 1..130 blocks incl. > 63, partial last batch, with and without size hint) are decoded with decoder jobs {1,2,3,4,8,64} under PCT-controlled and randomly perturbed schedules: bytes must equal the original; " +
 		"streams with a damaged payload / forged stored length in block k (k first, second, last of a batch, first of the next, last) are decoded under preemption-bounded DFS, PCT and free-running schedules, i.e. with the neighbours " +
 		"before their wait, spinning, inside the shared read or past their publish when block k fails: everything returned (also by Read calls after the error) must be a prefix of the original and the failure must be reported; " +
+		"valid streams are also decoded with block ranges starting inside a batch and spanning several batches, and as one / two blocks above the 4 MiB threshold of the parallel inverse BWT with 3..7 jobs for the block; " +
 		"the C07 trace automaton runs on every execution. distinct_nontrivial = distinct hand-off interleavings observed")
 	if replay != "" {
 		var sc protoScenario
